@@ -704,7 +704,11 @@ orc_parse_handle_constant_str (OrcParser *parser, const OrcLine *line)
 
   size = strtol (line->tokens[1], NULL, 0);
 
-  orc_program_add_constant_str (parser->program, size, line->tokens[3], line->tokens[2]);
+  if (orc_program_add_constant_str (parser->program, size, line->tokens[3],
+          line->tokens[2]) < 0) {
+    orc_parse_add_error (parser, "bad constant value \"%s\"", line->tokens[3]);
+    return 0;
+  }
 
   return 1;
 }
@@ -865,6 +869,11 @@ orc_parse_handle_opcode (OrcParser *parser, const OrcLine *line)
       snprintf (varname, sizeof (varname), "_%d.%s", opcode_arg_size(o, j), line->tokens[i]);
       id = orc_program_add_constant_str (parser->program, opcode_arg_size(o, j),
           line->tokens[i], varname);
+      if (id < 0) {
+        orc_parse_add_error (parser, "bad constant value \"%s\"",
+            line->tokens[i]);
+        return 0;
+      }
       /* it's possible we reused an existing variable, get its name so
        * that we can refer to it in the opcode */
       args[j] = parser->program->vars[id].name;
